@@ -3,8 +3,10 @@ package interp
 import (
 	"fmt"
 	"go/types"
+	"os"
 	"sort"
 	"strings"
+	"time"
 
 	"symgo/smt"
 )
@@ -87,6 +89,7 @@ type pathState struct {
 	decisions  []Decision
 	model      map[string]uint64
 	modelValid bool
+	itemModel  map[string]uint64 // the model that came with the work item (valid at the end of the prefix)
 	symBranch  int
 	children   []WorkItem
 	violations []Violation
@@ -371,7 +374,7 @@ func (i *interpreter) scaledSide(a, b *smt.Term, cval uint64) bool {
 	if v, ok := i.sideCache[key]; ok {
 		return v
 	}
-	res, _ := i.solver.Check(c.Not(side), false, nil)
+	res, _ := i.solverCheck(c.Not(side), false, nil)
 	if i.sideCache == nil || len(i.sideCache) > 100000 {
 		i.sideCache = map[string]bool{}
 	}
@@ -478,7 +481,7 @@ func (i *interpreter) ensureModel() {
 	if p.modelValid {
 		return
 	}
-	res, m := i.solver.Check(nil, true, p.vars())
+	res, m := i.solverCheck(nil, true, p.vars())
 	switch res {
 	case smt.Sat:
 		p.model = m
@@ -538,6 +541,20 @@ func (p *pathState) inPC(id int) bool {
 	return false
 }
 
+var debugSlow = os.Getenv("SYMGO_SLOW") != ""
+
+func (i *interpreter) solverCheck(extra *smt.Term, wantModel bool, vars []*smt.Term) (smt.Result, map[string]uint64) {
+	if !debugSlow {
+		return i.solver.Check(extra, wantModel, vars)
+	}
+	tq := time.Now()
+	res, m := i.solver.Check(extra, wantModel, vars)
+	if time.Since(tq) > 1500*time.Millisecond {
+		fmt.Fprintf(os.Stderr, "slow check %.1fs (%v) at %s\n", time.Since(tq).Seconds(), res, i.where())
+	}
+	return res, m
+}
+
 func (i *interpreter) decide(cond *smt.Term) bool {
 	p := i.path
 	if p.inPC(cond.ID) {
@@ -561,8 +578,12 @@ func (i *interpreter) decide(cond *smt.Term) bool {
 		} else {
 			i.assertPC(i.ctx.Not(cond))
 		}
-		if p.pos == len(p.prefix) && p.model != nil {
-			p.modelValid = true
+		// a model obtained in the middle of the prefix (ensureModel) only satisfies the path
+		// condition up to that point; the work item's model is valid once the prefix is done
+		if p.pos == len(p.prefix) {
+			p.model, p.modelValid = p.itemModel, p.itemModel != nil
+		} else {
+			p.modelValid = false
 		}
 		return d.B
 	}
@@ -575,7 +596,7 @@ func (i *interpreter) decide(cond *smt.Term) bool {
 	if mv {
 		other = i.ctx.Not(cond)
 	}
-	res, m2 := i.solver.Check(other, true, p.vars())
+	res, m2 := i.solverCheck(other, true, p.vars())
 	otherFeasible := res != smt.Unsat
 	if res == smt.Unknown {
 		p.unknownBr++
@@ -631,8 +652,12 @@ func (i *interpreter) concretize(x *smt.Term, t types.Type) value {
 			cv = i.ctx.Bool(d.V != 0)
 		}
 		i.assertPC(i.ctx.Eq(x, cv))
-		if p.pos == len(p.prefix) && p.model != nil {
-			p.modelValid = true
+		// a model obtained in the middle of the prefix (ensureModel) only satisfies the path
+		// condition up to that point; the work item's model is valid once the prefix is done
+		if p.pos == len(p.prefix) {
+			p.model, p.modelValid = p.itemModel, p.itemModel != nil
+		} else {
+			p.modelValid = false
 		}
 		return fromConst(t, cv)
 	}
@@ -648,7 +673,7 @@ func (i *interpreter) concretize(x *smt.Term, t types.Type) value {
 			i.solver.Pop()
 			panic(endPath{PathUnsupported, fmt.Sprintf("symbolic value %s has more than %d feasible values where a concrete one is needed (%s)", x, i.opts.MaxConcretize, i.where())})
 		}
-		res, m := i.solver.Check(nil, true, append(p.vars(), termVars(x)...))
+		res, m := i.solverCheck(nil, true, append(p.vars(), termVars(x)...))
 		if res == smt.Unsat {
 			break
 		}
@@ -703,7 +728,7 @@ func (i *interpreter) assume(v value) {
 			i.assertPC(c)
 			return
 		}
-		res, m := i.solver.Check(c, true, p.vars())
+		res, m := i.solverCheck(c, true, p.vars())
 		switch res {
 		case smt.Sat:
 			i.assertPC(c)
@@ -740,7 +765,7 @@ func (i *interpreter) check(v value, label string) {
 		return
 	case *smt.Term:
 		p.asserts++
-		res, m := i.solver.Check(i.ctx.Not(c), true, p.vars())
+		res, m := i.solverCheck(i.ctx.Not(c), true, p.vars())
 		switch res {
 		case smt.Unsat:
 			// holds on this path for every value; nothing to add
